@@ -13,7 +13,8 @@
 //
 // IN tokens: REQ|RES  lg=<logger>  skip=0|1  then message tokens in any order:
 //
-//	M<method> S<status> V10 Q<request-method-of-response> P<hex path> NH (no Host)
+//	M<method> S<status> V10 Q<request-method-of-response> P<hex request-target> NH (no Host)
+//	R<hex reason phrase> (default: http.StatusText)  O<hex Host header value> (default example.com)
 //	H<hexkey>:<hexval>   header line (wire order)
 //	Fcl | Fch | Fnone    framing: Content-Length, chunked, neither
 //	B<hex>               entity bytes as sent (before chunking)
@@ -63,6 +64,8 @@ type spec struct {
 	reqMethod  string
 	path       string
 	noHost     bool
+	hostHdr    *string // Host header value (default example.com)
+	reason     *string // reason phrase (default http.StatusText)
 	hdrs       []kv
 	framing    string // cl ch none
 	entity     []byte
@@ -166,6 +169,20 @@ func parseSpec(in []string) *spec {
 			s.noHost = true
 		case t == "U":
 			s.undeclared = true
+		case t[0] == 'R':
+			b, err := hx.UnHex(t[1:])
+			if err != nil {
+				s.bad = "R"
+			}
+			v := string(b)
+			s.reason = &v
+		case t[0] == 'O':
+			b, err := hx.UnHex(t[1:])
+			if err != nil {
+				s.bad = "O"
+			}
+			v := string(b)
+			s.hostHdr = &v
 		case t == "Fcl" || t == "Fch" || t == "Fnone":
 			s.framing = t[1:]
 		case t[0] == 'M':
@@ -245,10 +262,18 @@ func (s *spec) raw() []byte {
 	if s.isReq {
 		fmt.Fprintf(&b, "%s %s %s\r\n", s.method, s.path, ver)
 		if !s.noHost {
-			b.WriteString("Host: example.com\r\n")
+			h := "example.com"
+			if s.hostHdr != nil {
+				h = *s.hostHdr
+			}
+			fmt.Fprintf(&b, "Host: %s\r\n", h)
 		}
 	} else {
-		fmt.Fprintf(&b, "%s %d %s\r\n", ver, s.status, reason(s.status))
+		rs := reason(s.status)
+		if s.reason != nil {
+			rs = *s.reason
+		}
+		fmt.Fprintf(&b, "%s %03d %s\r\n", ver, s.status, rs)
 	}
 	for _, h := range s.hdrs {
 		fmt.Fprintf(&b, "%s: %s\r\n", h.k, h.v)
@@ -368,7 +393,13 @@ func (m *message) fields(p string) (out []string) {
 	var hd, tr http.Header
 	if m.req != nil {
 		r := m.req
-		start = fmt.Sprintf("%s %s HTTP/%d.%d", r.Method, r.URL, r.ProtoMajor, r.ProtoMinor)
+		// the request line of the message: method, request-target, protocol.
+		// CONNECT carries the authority-form (net/http's Write applies the same rule).
+		target := r.URL.String()
+		if r.Method == "CONNECT" && r.URL.Path == "" {
+			target = r.URL.Host
+		}
+		start = fmt.Sprintf("%s %s HTTP/%d.%d", r.Method, target, r.ProtoMajor, r.ProtoMinor)
 		host, te, cl, hd = r.Host, r.TransferEncoding, r.ContentLength, r.Header
 	} else {
 		r := m.res
@@ -814,6 +845,13 @@ func runCase(in []string) (out []string) {
 	}
 	out = append(out, "err="+e1)
 
+	// reference start line: what Write sends for the unlogged twin (responses);
+	// the request line as received (requests: Write always sends HTTP/1.1 and
+	// the origin-form, whatever arrived)
+	refLine := firstLine(uw)
+	if s.isReq {
+		refLine = firstLine(raw)
+	}
 	if r1.text != nil && rec > 0 {
 		t := *r1.text
 		dash := strings.Repeat("-", 80)
@@ -826,6 +864,7 @@ func runCase(in []string) (out []string) {
 		suf := "\n" + dash + "\n"
 		if strings.HasPrefix(t, pre) && strings.HasSuffix(t, suf) && len(t) >= len(pre)+len(suf) {
 			out = append(out, "text="+bodyTok([]byte(t[len(pre):len(t)-len(suf)])))
+			out = append(out, "sl="+hx.Hex(firstLine([]byte(t[len(pre):len(t)-len(suf)])))+":"+hx.Hex(refLine))
 		} else {
 			out = append(out, "text=!shape")
 		}
@@ -848,6 +887,7 @@ func runCase(in []string) (out []string) {
 		} else {
 			out = append(out, "s.h="+hx.Hex(hb)+he, "s.b="+hx.Hex(bb)+be, "s.t="+hx.Hex(tb)+te, "s.full="+hx.Hex(fb)+fe)
 		}
+		out = append(out, "sl="+hx.Hex(firstLine(fb))+":"+hx.Hex(refLine))
 		// decoded body (de-chunked, de-compressed) for the record
 		dr, derr := mv.BodyReader(messageview.Decode())
 		db, de := readAllTok(dr, derr)
@@ -862,6 +902,13 @@ func runCase(in []string) (out []string) {
 		}
 	}
 	return out
+}
+
+func firstLine(b []byte) []byte {
+	if i := bytes.Index(b, []byte("\r\n")); i >= 0 {
+		return b[:i]
+	}
+	return b
 }
 
 // ---------------------------------------------------------------- generators
@@ -963,8 +1010,12 @@ func main() {
 	if cfg.Thorough() {
 		nr = 50000
 	}
-	methods := []string{"GET", "POST", "PUT", "DELETE", "PATCH", "OPTIONS", "HEAD"}
-	statuses := []int{200, 201, 204, 206, 301, 304, 404, 500}
+	methods := []string{"GET", "POST", "PUT", "DELETE", "PATCH", "OPTIONS", "HEAD", "PROPFIND", "M-SEARCH", "get", "QUERY"}
+	statuses := []int{200, 201, 204, 206, 301, 304, 404, 500, 100, 101, 299, 418, 520, 999}
+	reasons := []string{"Alright", "", "Origin Error", "Not  Found  twice", "OK", "ok", "Tr\xe8s bien", "200 OK"}
+	targets := []string{"/a/b%20c?x=1&y=%2F", "/a%2fb/%7Euser;p=1?q=a+b&r=%26", "/%E2%82%AC?x=%41", "//double//slash", "/path?",
+		"/p?a=b?c", "http://other.example:8080/x?y=1", "http://example.com", "/"}
+	hosts := []string{"example.com:8080", "EXAMPLE.com", "[::1]:80", "other.example"}
 	encs := []string{"id", "id", "gzip", "deflate", "br"}
 	bsizes := []int{0, 0, 1, 2, 3, 10, 100, 1000, 4095, 4096, 4097, 10000}
 	for k := 0; k < nr; k++ {
@@ -976,11 +1027,17 @@ func main() {
 		in := []string{kind, "lg=" + loggers[r.Intn(len(loggers))], "skip=" + strconv.Itoa(r.Intn(4)/3)}
 		if kind == "REQ" {
 			in = append(in, "M"+methods[r.Intn(len(methods))])
-			if r.Chance(1, 4) {
-				in = append(in, "P"+hx.HexS("/a/b%20c?x=1&y=%2F"))
+			if r.Chance(1, 3) {
+				in = append(in, "P"+hx.HexS(targets[r.Intn(len(targets))]))
+			}
+			if r.Chance(1, 6) {
+				in = append(in, "O"+hx.HexS(hosts[r.Intn(len(hosts))]))
 			}
 		} else {
 			in = append(in, "S"+strconv.Itoa(statuses[r.Intn(len(statuses))]))
+			if r.Chance(1, 3) {
+				in = append(in, "R"+hx.HexS(reasons[r.Intn(len(reasons))]))
+			}
 			if r.Chance(1, 10) {
 				in = append(in, "QHEAD")
 			}
@@ -1046,6 +1103,83 @@ func main() {
 			}
 		}
 		emit("rnd", in)
+	}
+
+	// 2b. start lines: every component varied, against the loggers that print them
+	for _, lg := range []string{"snap:0:-", "snap:1:-", "text:0:0", "text:1:1", "har:on", "marbl"} {
+		for _, v10 := range []bool{false, true} {
+			ver := []string{}
+			if v10 {
+				ver = []string{"V10"}
+			}
+			for _, code := range []int{100, 200, 204, 299, 304, 404, 520, 999} {
+				for _, rs := range []string{"-", "", "Alright", "Origin Error", "not  canonical ", "OK"} {
+					in := append([]string{"RES", "lg=" + lg, "skip=0", "S" + strconv.Itoa(code)}, ver...)
+					if rs != "-" {
+						in = append(in, "R"+hx.HexS(rs))
+					}
+					in = append(in, hkv("Content-Type", "text/plain"), "Fcl", "Bx6869")
+					emit("stl", in)
+				}
+			}
+			for _, mt := range [][2]string{{"GET", "/"}, {"GET", "/a%2fb/%7Euser;p=1?q=a+b&r=%26"}, {"GET", "http://other.example:8080/x?y=1"},
+				{"GET", "http://example.com"}, {"OPTIONS", "*"}, {"OPTIONS", "/"}, {"PROPFIND", "//double//slash"}, {"M-SEARCH", "/path?"},
+				{"get", "/%E2%82%AC?x=%41"}, {"POST", "/p?a=b?c"}, {"DELETE", "/x;y"}, {"QUERY", "/"}} {
+				for _, host := range []string{"-", "example.com:8080", "EXAMPLE.com", "other.example", "NH"} {
+					in := append([]string{"REQ", "lg=" + lg, "skip=0", "M" + mt[0], "P" + hx.HexS(mt[1])}, ver...)
+					switch host {
+					case "-":
+					case "NH":
+						if !v10 && !strings.HasPrefix(mt[1], "http") {
+							continue // HTTP/1.1 needs a Host
+						}
+						in = append(in, "NH")
+					default:
+						in = append(in, "O"+hx.HexS(host))
+					}
+					if mt[0] == "POST" || mt[0] == "QUERY" {
+						in = append(in, hkv("Content-Type", "text/plain"), "Fcl", "Bx6869")
+					}
+					emit("stl", in)
+				}
+			}
+		}
+		// CONNECT: authority-form
+		emit("stl", []string{"REQ", "lg=" + lg, "skip=0", "MCONNECT", "P" + hx.HexS("example.com:443"), "O" + hx.HexS("example.com:443")})
+	}
+
+	// 2c. header section: ordering, duplicates, non-canonical keys, padded values, Host/TE/CL overlay
+	for _, kind := range []string{"REQ", "RES"} {
+		for _, lg := range []string{"snap:0:-", "text:0:0", "har:on", "marbl"} {
+			base := []string{kind, "lg=" + lg, "skip=0"}
+			if kind == "REQ" {
+				base = append(base, "MPOST")
+			}
+			sets := [][]string{
+				{hkv("Zeta", "1"), hkv("alpha", "2"), hkv("Mid-Dle", "3"), hkv("Zeta", "4"), hkv("ALPHA", "5"), hkv("alpha", "6")},
+				{hkv("x-lower", "v"), hkv("ETag", "\"a\""), hkv("WWW-Authenticate", "Basic"), hkv("X-Pad", "  padded  "), hkv("X-Empty", "")},
+				{hkv("Set-Cookie", "a=1"), hkv("Set-Cookie", "b=2"), hkv("Set-Cookie", "a=1"), hkv("Cookie", "c=3")},
+				{hkv("Content-Length", "2"), "Fch"},
+				{hkv("Content-Length", "2"), hkv("Content-Length", "2")},
+				{hkv("Transfer-Encoding", "chunked"), "Fch"},
+				{hkv("Host", "inner.example"), hkv("Connection", "keep-alive"), hkv("Trailer", "X-Late")},
+				{hkv("A", "1"), hkv("B", "2"), hkv("AA", "3"), hkv("A-", "4"), hkv("a0", "5"), hkv("A_", "6")},
+			}
+			for _, hs := range sets {
+				in := append(append([]string{}, base...), hs...)
+				hasF := false
+				for _, t := range hs {
+					if t == "Fch" {
+						hasF = true
+					}
+				}
+				if !hasF {
+					in = append(in, "Fcl")
+				}
+				in = append(in, "Bx6869")
+				emit("hdr", in)
+			}
+		}
 	}
 
 	// 3. form bodies for the HAR post-data parser
